@@ -5,6 +5,8 @@
 //   refine  <shape> <depth> <meshX> <graph>         same, then <depth> joint refinements of base node and patch nodes
 //   split   <shape> <mesh> <graph> <l_0>..<l_D>     a base-mesh mesh part (target lists) split among all patches
 //   hsplit  <shape> <mesh> <graph> <child list>     two-level partition; inter-parent halos split among the children
+//   idist   <shape> <patches> <start> <thr> <mesh>  Intern::parti_iterative_distance
+//   iterc   <shape> <seed> <patches> <thr> <centres> <mesh>   PartiIterativeIndividual with Random(seed)
 //   p2l     <shape> <num_elems> <num_ranks>         Parti2Lvl decision logic + build_elems_at_rank
 //   auto    <shape> <kind> <ranks> <depth> <meshX>  built-in partitioner (kind 0 = Parti2Lvl, 1 = PartiIterative),
 //                                                   extraction of every patch, <depth> joint refinements
@@ -25,6 +27,9 @@
 #include <kernel/util/dist.hpp>
 
 #include <memory>
+#include <algorithm>
+#include <limits>
+#include <kernel/util/random.hpp>
 #include <type_traits>
 
 using namespace FEAT;
@@ -302,6 +307,57 @@ struct Run
         }
       }
     }
+    else if(op == "idist")
+    {
+      // the distance function of PartiIterative (deterministic): idist <shape> <num_patches> <start> <thr> <mesh>
+      Index num_patches = c.idx(), start = c.idx();
+      c.idx(); // threshold: an input of the model only (the C++ computes it with floating point pow)
+      auto mesh = read_mesh(c, false);
+      std::vector<Index> d = Geometry::Intern::parti_iterative_distance(start, *mesh, num_patches);
+      o << "D " << d.size();
+      for(Index x : d) o << " " << x;
+    }
+    else if(op == "iterc")
+    {
+      // PartiIterativeIndividual with a seeded RNG: iterc <shape> <seed> <num_patches> <thr> <centres> <mesh>
+      // <centres> = the cluster centres this seed draws (computed by the generator's xorshift64* replica and checked
+      // against the real _centers below)
+      Index seed = c.idx(), num_patches = c.idx();
+      c.idx();
+      auto cen = c.idxlist();
+      auto mesh = read_mesh(c, false);
+      const Index n = mesh->get_num_elements();
+      std::sort(cen.begin(), cen.end());
+      // is every cell reached from some centre?  (real distance function; an unreached cell keeps an uninitialised
+      // PartiIterativeItem::patch, which the constructor then uses as an index)
+      std::vector<bool> reached(n, false);
+      for(auto ce : cen)
+      {
+        std::vector<Index> d = Geometry::Intern::parti_iterative_distance(Index(ce), *mesh, num_patches);
+        for(Index i = 0; i < n; ++i)
+          if(d.at(i) != std::numeric_limits<Index>::max()) reached[i] = true;
+      }
+      std::vector<Index> un;
+      for(Index i = 0; i < n; ++i) if(!reached[i]) un.push_back(i);
+      if(n >= num_patches && !un.empty())
+      {
+        o << "IC " << cen.size();
+        for(auto ce : cen) o << " " << ce;
+        o << " UNINIT " << un.size();
+        for(Index x : un) o << " " << x;
+        return;
+      }
+      Random rng(seed);
+      Geometry::Intern::PartiIterativeIndividual<Shape_, D, Q> indi(*mesh, rng, num_patches);
+      o << "IC " << indi._centers.size();
+      for(Index ce : indi._centers) o << " " << ce;
+      o << " R " << indi._cells_per_patch.size();
+      for(const auto& st : indi._cells_per_patch)
+      {
+        o << " " << st.size();
+        for(Index x : st) o << " " << x;
+      }
+    }
     else if(op == "p2l")
     {
       Index num[D + 1];
@@ -356,7 +412,7 @@ static void handle(const verif::Tokens& t, std::ostream& o)
 {
   Cur c(t);
   std::string op = c.str();
-  if(op != "extract" && op != "refine" && op != "p2l" && op != "auto" && op != "split" && op != "hsplit") { o << "BAD-OP"; return; }
+  if(op != "extract" && op != "refine" && op != "p2l" && op != "auto" && op != "split" && op != "hsplit" && op != "idist" && op != "iterc") { o << "BAD-OP"; return; }
   std::string shape = c.str();
   if(shape == "h1") Run<Shape::Hypercube<1>>::handle(op, c, o);
   else if(shape == "h2") Run<Shape::Hypercube<2>>::handle(op, c, o);
